@@ -543,6 +543,76 @@ def _s3(tier):
         max_seconds=300, max_paths=10000, twin_max_paths=100)]
 
 
+# ------------------------------------------------------------------------------------------
+# S4: sequence numbers run on across transactions, whatever way the previous transaction ended
+
+
+def s4_sequence_across_transactions(src):
+    import asyncio
+    import aiokafka.errors as E
+    from env import simkafka, vloop
+    from . import txnsim
+    ends = [["commit", "abort"][src.choice(f"transaction_{i}_ends_by", 2)] for i in range(2)]
+    counts = [1 + src.choice(f"records_in_transaction_{i}", 2) for i in range(3)]
+    cluster = simkafka.Cluster(nodes=(0, 1), topics={"t": 2})
+    res = {"acked": []}
+
+    async def main(loop):
+        with simkafka.installed(cluster):
+            prod = await txnsim.open_producer(cluster)
+            try:
+                for i in range(3):
+                    await prod.begin_transaction()
+                    futs = []
+                    for k in range(counts[i]):
+                        futs.append(await prod.send("t", b"t%d-%d" % (i, k), key=b"k", partition=0))
+                    if i == 2 or ends[i] == "commit":
+                        await prod.commit_transaction()
+                        res["acked"] += [b"t%d-%d" % (i, k) for k in range(counts[i])]
+                    else:
+                        await prod.abort_transaction()
+                    for f in futs:
+                        if f.done() and f.exception() is not None:
+                            res.setdefault("failed", []).append(repr(f.exception()))
+            except (E.KafkaError, AssertionError) as e:
+                res["error"] = repr(e)
+            finally:
+                try:
+                    await asyncio.wait_for(prod.stop(), 20)
+                except (asyncio.TimeoutError, asyncio.CancelledError, Exception) as e:  # noqa: BLE001
+                    res["stop"] = repr(e)
+
+    try:
+        vloop.run(main, max_vtime=200.0)
+    except vloop.Deadlock as e:
+        res["deadlock"] = str(e)
+    c = cluster
+    info = dict(ends=ends, counts=counts, presented=[x[3:] for x in c.seq_presented][:8], error=res.get("error"), failed=res.get("failed"))
+    src.note(info)
+    src.check("deadlock" not in res, "transactional producer did not finish: " + str(res.get("deadlock")), **info)
+    ok = not c.seq_errors and c.duplicates_absorbed == 0
+    if src.twin:
+        ok = not ok
+    src.check(ok, "a sequence number was reused or skipped across transactions although no request was ever retried "
+              f"(sequence errors {c.seq_errors[:2]}, batches the broker took for replays: {c.duplicates_absorbed})", **info)
+    src.check("error" not in res and not res.get("failed"), "a fault-free sequence of transactions failed: " + str(res.get("error") or res.get("failed")), **info)
+    view = [r[2] for r in c.logs[("t", 0)].visible_records(1)]
+    src.check(view == res["acked"], "the records of the committed transactions are not exactly the ones a read-committed reader sees, in order",
+              visible=[v.decode() for v in view], **info)
+
+
+def _s4(tier):
+    from aiokafka.producer.transaction_manager import TransactionManager as TM
+    return [Harness(
+        name="S4_sequence_across_transactions", fn=s4_sequence_across_transactions,
+        functions=[TM.complete_transaction, TM.sequence_number, TM.increment_sequence_number], shape="S",
+        symbolic_vars="choices: how each of the first two transactions ends (commit/abort), records per transaction",
+        bounds={"transactions": 3, "records_per_transaction": "1..2", "partitions": 1},
+        stubs=["AIOKafkaConnection -> SimConn (request-level cluster model, env/simkafka.py)", "virtual-time event loop"],
+        assumptions=["broker behaviour as modelled in env/simkafka.py (sequence rule: DESIGN Appendix B1)"],
+        max_seconds=300, max_paths=10000, twin_max_paths=100)]
+
+
 def _s2(tier):
     from aiokafka.producer.sender import Sender
     from aiokafka.producer.message_accumulator import MessageAccumulator
@@ -561,4 +631,4 @@ _k_harnesses = harnesses
 
 
 def harnesses(tier):  # noqa: F811
-    return _k_harnesses(tier) + _u1(tier) + _s1(tier) + _s2(tier) + _s3(tier)
+    return _k_harnesses(tier) + _u1(tier) + _s1(tier) + _s2(tier) + _s3(tier) + _s4(tier)
